@@ -78,6 +78,18 @@ class Both(abc.Mapping, abc.Sequence):
         return len(self._d)
 
 
+class BothDot(Both):
+    """Both a Mapping and a Sequence, holding data whose validity depends on the category chosen."""
+
+    def __init__(self):
+        self._d = {"a.b": 1}
+
+
+class BothComplex(Both):
+    def __init__(self):
+        self._d = {"k": 1j}
+
+
 class Neither:
     def __repr__(self):
         return "<Neither>"
@@ -212,6 +224,10 @@ def make_pool():
         ("mappingproxy", lambda: type.__dict__ and __import__("types").MappingProxyType({"p": 1})),
         ("counter", lambda: collections.Counter("aab")), ("chainmap", lambda: collections.ChainMap({"c": 1})),
         ("namedtuple", lambda: collections.namedtuple("NT", "x y")(1, 2)),
+        ("both_dot", lambda: BothDot()), ("both_complex", lambda: BothComplex()),
+        # classes created on the fly that die right after use (their memory - and id() - gets reused)
+        ("dyn_dict", lambda: type("DynD", (dict,), {})(a=1)), ("dyn_list", lambda: type("DynL", (list,), {})([1])),
+        ("dyn_plain", lambda: type("DynP", (), {})()), ("dyn_map", lambda: type("DynM", (MyMapping,), {})({"m": 1})),
         ("plainbase", lambda: PlainBase()), ("basemap", lambda: BaseMap()), ("baseseq", lambda: BaseSeq()),
         ("dictchild", lambda: DictChild(a=1)), ("mapthenseq", lambda: MapThenSeq({"ms": 1})),
     ]
